@@ -39,7 +39,7 @@ MANIFEST = {
 
 
 def plan(tier):
-    t = 300 if tier == "quick" else 1800
+    t = 300 if tier == "quick" else 900
     parts = [f"0:{c},1:{m},2:{n}" for c in range(2) for m in range(5) for n in range(3)]
     return [
         K("k_path_match", "kjobs.c11", "path_matching", "path/class matching vs segment suffix"),
